@@ -12,7 +12,7 @@ CHECKS = {
     'C01': (['FM94.tla', 'FM94Gen.tla', 'Tables.tla', 'Column.tla', 'Framing.tla', 'Wide.tla', 'Bits.tla'],
             'TLA+ spec FM94.tla (FM-94 template walker as a state machine, tables read as data) model-checked by TLC over a template '
             'catalogue plus grammar-derived WF templates per seed (vf/gen.py) x factors x bitmap bits x compression x subsets; every TLC behaviour (message octets assembled by Framing.tla) is '
-            'replayed into the real Decoder; sample corpus parsed by the specification in consume form and compared, with hook-recorded bit cursors',
+            'replayed into the real Decoder (results and the hook-recorded primitive calls: label, effective width / scale / reference); version-dependent templates alternately under three table versions through one Decoder; sample corpus parsed by the specification in consume form and compared, with hook-recorded bit cursors and parameters',
             'TLC enumerates every behaviour of the walker specification inside the stated bounds (invariants TypeOK, MissingIffAllOnes, '
             'LinksPointBack, CursorIsSumOfWidths, ...); each behaviour carries a complete message built without pybufrkit and the real '
             'decoder must return exactly the labels, scaled integers, strings and links of the specification; in the other direction the '
@@ -23,7 +23,7 @@ CHECKS = {
     'C02': (['FM94.tla', 'FM94Gen.tla', 'Column.tla', 'Framing.tla'],
             'TLA+ spec FM94.tla in produce form gives the canonical bits (catalogue + grammar-derived templates); TLC behaviours replayed into the real Encoder: uncompressed output '
             'byte-identical to the message assembled by Framing.tla, compressed output re-read by the specification (consume form, second TLC run); '
-            're-encoded corpus parsed by the specification',
+            'encoder primitive calls compared through the hooks; cross-version pass through one Encoder; re-encoded corpus parsed by the specification',
             'Every TLC behaviour supplies values and the independently assembled message; the real encoder must reproduce it byte for byte when '
             'uncompressed; compressed output is validated by the specification reading it back (values reconstruct, all-ones difference iff '
             'missing, width 0 iff all subsets agree, zero padding).',
@@ -66,8 +66,8 @@ CHECKS = {
             'DESIGN.md section 3 C07'),
     'C04': (['Framing.tla', 'FramingSM.tla'],
             'TLA+ specs Framing.tla (section layouts from FM-94) and FramingSM.tla (writer with recompute/honour length policies, reader, shrunk-length fault) '
-            'model-checked by TLC over editions x section 2 x data bit lengths x declared surpluses x total modes x trailing bytes; every terminal state '
-            'replayed into the real Encoder (both policies) and Decoder',
+            'model-checked by TLC over editions x section 2 x data bit lengths x declared surpluses x total modes x leading / trailing bytes x version override x truncation; every terminal state '
+            'replayed into the real Encoder (both policies) and Decoder, a second time through one shared Decoder with per-call options',
             'TLC checks the length-accounting invariants on every combination inside the bounds; each combination is then executed: the encoder must '
             'emit exactly the specification octets or refuse exactly when the specification refuses, the decoder must report the same lengths, values '
             'and serialized bytes, or a library error exactly when the specification reader fails.',
@@ -140,7 +140,7 @@ CHECKS = {
     'C13': (['Caches.tla', 'FM94.tla'],
             'TLA+ spec Caches.tla (table-group cache with bounded most-recent-first eviction, compiled-template cache, message objects; operations as actions) model-checked by TLC; '
             'every transition of the state graph emitted with its shortest history (transition tour) and executed against the real code in worker subprocesses with the cache limits '
-            'set as in the model; each step compared with the same operation in a fresh process; one history at the real limit of 50 over 59 table-group keys',
+            'set as in the model; each step compared with the same operation in a fresh process; lenient decoding and an identification with missing tables are operations AND state of the model; one history at the real limit of 50 over 59 table-group keys',
             'All (state, operation) pairs of the cache model up to the history bound are exercised on the implementation; results must be history-independent.',
             'Trusted: TLC; Caches.tla; fresh-process results of the implementation as reference (tied to FM94.tla by C01/C02).',
             'DESIGN.md section 3 C13'),
@@ -153,7 +153,7 @@ CHECKS = {
             'DESIGN.md section 3 C20'),
     'C15': (['PathParser.tla', 'Trace_PathParser.tla'],
             'TLA+ spec PathParser.tla (documented grammar as recogniser + 9-state character automaton) model-checked by TLC over every '
-            'string up to length 5/6 over a 12-symbol alphabet; TLC-emitted verdicts replayed into NodePathParser; recorded parser '
+            'string up to length 5/6 over a 12-symbol alphabet; TLC-emitted verdicts replayed into NodePathParser; every string also through one shared parser object; recorded parser '
             'outcomes for long expressions and mutations validated by TLC (Trace_PathParser.tla)',
             'TLC checks the automaton against the grammar on every string of the bounded space, and every such string is parsed by the '
             'real parser with verdict, exception type, slices, components and the print/parse round trip compared; beyond the bound, '
